@@ -22,7 +22,7 @@ CLAIM = dict(
          "C04's covariant-expression syntax) the sum over the blocks of any grouping is gauge invariant "
          "(omega_total_gauge_invariant) but obeys NO sum rule (external_terms_no_sum_rule: one band with rotAA = 1 gives "
          "1).  NOT proved (topology + quadrature): AHC*c of a "
-         "gapped 2D model is an integer multiple of e^2/h - checked by the oracle only (Haldane models from "
+         "gapped 2D model is an integer multiple of e^2/h - checked by the oracle only (k.p models through SystemKP and Haldane models from "
          "models.Haldane_ptb/Haldane_tbm in trivial and topological phases, with random perturbations and random "
          "external-term matrices, against an independent Fukui-Hatsugai-Suzuki Chern number; 2 %, sign pinned).",
     note="Trusted: Lean kernel + Mathlib; harness; numpy eigh/einsum/FFT.  Theorems are over exact fields; the code "
@@ -54,7 +54,9 @@ RULE = ("corr: 2-6 bands, sorted dyadic energies with exact and sub-threshold de
         "fresh calculators and with the Chern reference), single FFT grids (one Data_K) of 36 to ~4400 k-points incl. "
         "1600 and 2500, a size-generic component check (dEig_inv, |D_H|, Berry curvature of a Data_K with nk in {1, 7, "
         "1023, 1024, 1025, 2049, 3000, random} at the first, last three and random k-points against the same k-point "
-        "evaluated alone), Haldane-type models in both phases.  non-trivial = at least "
+        "evaluated alone), lattice-periodic two-band k.p models d(k).sigma through SystemKP (complex off-diagonal "
+        "elements, finite-difference and analytic derivatives, any embedding) in trivial and topological phases, "
+        "Haldane-type models in both phases.  non-trivial = at least "
         "one block has a non-zero internal curvature (sum rule) / the model is gapped with margin (Chern); "
         "distinct = distinct (kind, seed, parameters)")
 
@@ -692,7 +694,66 @@ def case_bigk(ctx, case):
                          dict(info, quantity=name, in_grid=a, alone=b))
 
 
-RUNNERS = {"bigk": case_bigk, "reuse": case_reuse, "sumk": case_sumrule_k, "ahc": case_ahc_above, "chern": case_chern, "sea": case_sea_edge}
+def case_chern_kp(ctx, case):
+    """a lattice-periodic two-band k.p model H(k) = d(k).sigma (SystemKP, derivatives by the code's own finite
+    differences or analytic) in any 2D embedding: AHC_z * c = -C e^2/h with C from the independent FHS reference"""
+    from ..wbsys import wb
+    from wannierberri.system import SystemKP
+    from scipy.constants import elementary_charge as e, h
+    sx = np.array([[0, 1], [1, 0]], dtype=complex)
+    sy = np.array([[0, -1j], [1j, 0]], dtype=complex)
+    sz = np.diag([1.0, -1.0]).astype(complex)
+    ax, ay, m_, c1, c2, t0 = case["coef"]
+    twopi = 2 * np.pi
+
+    def Hred(k):
+        return (ax * np.sin(twopi * k[0]) * sx + ay * np.sin(twopi * k[1]) * sy
+                + (m_ + c1 * np.cos(twopi * k[0]) + c2 * np.cos(twopi * k[1])) * sz
+                + t0 * np.cos(twopi * (k[0] + k[1])) * np.eye(2))
+    L = np.array(case["lattice"], dtype=float)
+    Cref, gap = fhs_chern(lambda a, b: Hred([a, b, 0.0]), 1, n=24)
+    Cint = int(round(Cref))
+    n = 24
+    ee = np.array([np.linalg.eigvalsh(Hred([a / n, b / n, 0.0])) for a in range(n) for b in range(n)])
+    if gap < 0.3 or abs(Cref - Cint) > 1e-6 or ee[:, 1].min() - ee[:, 0].max() < 0.25:
+        ctx.count("oracle.chern_kp.skipped_small_gap")
+        return
+    ef = 0.5 * (ee[:, 0].max() + ee[:, 1].min())
+    Efs = np.array([ef, float(ee.max()) + 1.0])
+    kw = {}
+    if case["analytic"]:
+        Linv = np.linalg.inv(2 * np.pi * np.linalg.inv(L).T)     # k_red = k_cart . recip^-1
+
+        def dHred(k):
+            d1 = twopi * (ax * np.cos(twopi * k[0]) * sx - c1 * np.sin(twopi * k[0]) * sz - t0 * np.sin(twopi * (k[0] + k[1])) * np.eye(2))
+            d2 = twopi * (ay * np.cos(twopi * k[1]) * sy - c2 * np.sin(twopi * k[1]) * sz - t0 * np.sin(twopi * (k[0] + k[1])) * np.eye(2))
+            dred = np.stack([d1, d2, np.zeros((2, 2), dtype=complex)], axis=-1)      # derivative w.r.t. reduced k
+            return np.einsum("mni,ai->mna", dred, Linv)                               # -> Cartesian
+        kw["derHam"] = dHred
+    with quiet():
+        s = SystemKP(Ham=Hred, kmax=None, real_lattice=L, k_vector_cartesian=False, finite_diff_dk=1e-4, **kw)
+        NK, F_ = case["NK"], case["NKFFT"]
+        grid = wb.Grid(s, NK=(NK, NK, 1), NKFFT=(F_, F_, 1))
+        res = wb.run(s, grid=grid, parallel=False, print_Kpoints=False, symmetrize=False, calculators={
+            "ahc": wb.calculators.static.AHC(Efermi=Efs), "cumdos": wb.calculators.static.CumDOS(Efermi=Efs)})
+    d = res.results["ahc"].data
+    c_ang = abs(np.linalg.det(L)) / np.linalg.norm(np.cross(L[0], L[1]))
+    val = d[0][2] * c_ang * 1e-10 / (e ** 2 / h)
+    ctx.count(f"oracle.chern_kp.C={Cint}")
+    ctx.case(signature=("chern_kp", tuple(case["coef"]), case["analytic"], case["NK"]), nontrivial=True)
+    info = dict(case, chern_ref=Cref, gap=gap, Efermi=Efs, ahc=d)
+    if abs(val - (-Cint)) > 0.02:
+        ctx.fail(f"k.p model (SystemKP, {'analytic' if case['analytic'] else 'finite-difference'} derivatives): "
+                 f"AHC_z*c/(e^2/h) = {val:.5f} but the Chern number of the occupied band is {Cint} (expected {-Cint})", info)
+    scale = np.abs(d).max() + 1.0
+    if np.abs(d[1]).max() > 1e-6 * scale:
+        ctx.fail(f"k.p model: AHC above all bands is {d[1].tolist()}", info)
+    cum = res.results["cumdos"].data
+    if abs(cum[0] - 1) > 1e-9 or abs(cum[1] - 2) > 1e-9:
+        ctx.fail(f"k.p model: CumDOS per cell is {cum.tolist()} (expected [1, 2])", info)
+
+
+RUNNERS = {"chern_kp": case_chern_kp, "bigk": case_bigk, "reuse": case_reuse, "sumk": case_sumrule_k, "ahc": case_ahc_above, "chern": case_chern, "sea": case_sea_edge}
 
 
 def gen_lattice_2d(rng):
@@ -778,6 +839,14 @@ def oracle(ctx, scale):
             steps.append((gen_lattice_2d(rng) if rng.random() < 0.75 else None, rng.choice([4, 6, 9]), rng.choice([4, 6])))
         cases.append(dict(kind="reuse", builder=rng.choice(["ptb", "tbm"]), delta=float(crit * rng.choice([0.0, 0.3, 2.0])),
                           hop1=-1.0, hop2=float(hop2), phi=float(phi), steps=steps))
+    for it in range(ctx.n(4, 30) * scale):
+        topo = rng.random() < 0.7
+        c1, c2 = rng.choice([1.0, 0.8, -1.0]), rng.choice([1.0, 1.2, -0.9])
+        m_ = (rng.choice([0.6, -0.5, 1.0, -1.1]) if topo else rng.choice([3.0, -3.2])) * 1.0
+        cases.append(dict(kind="chern_kp", coef=[rng.choice([1.0, -1.0, 0.7]), rng.choice([1.0, -1.0, 1.3]), m_, c1, c2,
+                                                rng.choice([0.0, 0.1, -0.15])],
+                          lattice=gen_lattice_2d(rng), analytic=(it % 2 == 1), NK=rng.choice([36, 48]),
+                          NKFFT=rng.choice([4, 6, 12])))
     for case in cases:
         ctx.count(f"oracle.{case['kind']}")
         with ctx.attempt(f"{case['kind']} case", case):
@@ -795,7 +864,8 @@ def replay(ctx, case):
                     "chern": ("kind", "seed", "builder", "delta", "hop1", "hop2", "phi", "perturb", "NK", "NKFFT", "lattice"),
                     "sea": ("kind", "seed", "nw", "m", "delta", "doubled", "kramers", "where", "degen_thresh"),
                     "reuse": ("kind", "builder", "delta", "hop1", "hop2", "phi", "steps"),
-                    "bigk": ("kind", "seed", "system", "NKFFT")}[c["kind"]]
+                    "bigk": ("kind", "seed", "system", "NKFFT"),
+                    "chern_kp": ("kind", "coef", "lattice", "analytic", "NK", "NKFFT")}[c["kind"]]
             cc = {k: c[k] for k in keys if k in c}
             print("replaying", cc)
             RUNNERS[c["kind"]](ctx, cc)
